@@ -11,6 +11,7 @@ import Fbr.Lemmas.OvlSimLookup
 import Fbr.Lemmas.OvlSimRO
 import Fbr.Lemmas.OvlOps
 import Fbr.Lemmas.OvlAll
+import Fbr.Lemmas.OvlRm
 
 namespace Fbr.Thm.C10
 open Fbr.Ovl
@@ -223,16 +224,20 @@ theorem fresh_view_is_merge (d : Disk) (hr : d.RootsOK) (ht : d.TreesOK) (p : Li
 
 /-- `view_is_merge`, PARTIAL: after any history made of the operations in `Op.covered` — every
     non-modifying operation (lookup, readdir, read, readlink, getxattr, open read-only, walk; they
-    load directories lazily) and the six modifying operations that copy a node up and change
-    attributes (open for writing incl. O_TRUNC, write, chmod, truncate, setxattr, removexattr,
-    with copy-up of files, symlinks, special files and of any chain of missing parent
-    directories) — from ANY initial disk, the live view at every path is the overlayfs union of
-    what is on disk then.  Failed operations are included (they may leave copied-up parents).
+    load directories lazily) and eleven of the thirteen modifying ones: open for writing (incl.
+    O_TRUNC), write, chmod, truncate, setxattr, removexattr (with copy-up of files, symlinks,
+    special files and of any chain of missing parent directories), create, mkdir, mknod, symlink
+    (over nothing, over an upper whiteout, over a lower whiteout; `set_opaque` included) and unlink
+    (with or without whiteout, `lower_entry_exists` included) — from ANY initial disk, the live
+    view at every path is the overlayfs union of what is on disk then.  Failed operations are
+    included (they may leave copied-up parents behind; the cache stays valid).
 
-    What is missing for the full statement: preservation of the cache invariant `Consistent` by
-    create, mkdir, mknod, symlink, link, unlink and rmdir is not proved in Lean.  For those the
-    tie is the correspondence run alone (live tree and restarted tree vs `merge` of the model's
-    disk after every operation) together with `view_is_merge_of_consistent`. -/
+    What is missing for the full statement: `link` and `rmdir`.  For `rmdir` the code clears the
+    upper whiteouts of the directory (`empty_node_directory`) BEFORE it copies the parent up, so
+    the forest is transiently not a valid cache and the invariant used here does not carry
+    through that window; `link` was not attempted.  For these two the tie is the correspondence
+    run alone (live tree and restarted tree vs `merge` of the model's disk after every operation)
+    together with `view_is_merge_of_consistent`. -/
 theorem view_is_merge_partial (d : Disk) (hr : d.RootsOK) (ht : d.TreesOK) (ops : List Op)
     (hops : ∀ op ∈ ops, op.covered = true) (p : List Name) :
     liveView (run (importFs d) ops) p = merge (run (importFs d) ops).disk p.reverse := by
@@ -244,8 +249,11 @@ theorem covered_op_keeps_cache (s : St) (hc : Consistent s) (op : Op) (hop : op.
     Consistent (runOp op s).st :=
   (runOp_cons op hop).st hc
 
-/-- `op_refines_plain_fs`, PARTIAL (non-modifying operations): they leave the union unchanged,
-    as they leave an ordinary file system unchanged. -/
+/-- `op_refines_plain_fs`, PARTIAL: (1) non-modifying operations leave the union unchanged, as
+    they leave an ordinary file system unchanged; (2) `unlink_refines_plain_fs` below: after a
+    successful unlink the name is gone from the union.  The other modifying operations are
+    covered only through `view_is_merge_partial` (live view = union) and the harness's
+    ordinary-directory reference run, not by a Lean statement of their plain-fs effect. -/
 theorem op_refines_plain_fs_partial (d : Disk) (hr : d.RootsOK) (ht : d.TreesOK) (ops : List Op)
     (hops : ∀ op ∈ ops, op.isModifying = false) (op : Op) (hop : op.isModifying = false) :
     merge (runOp op (run (importFs d) ops)).st.disk = merge d := by
@@ -253,6 +261,14 @@ theorem op_refines_plain_fs_partial (d : Disk) (hr : d.RootsOK) (ht : d.TreesOK)
   have h := run_ro_cd d ops hops _ ⟨h0.1, h0.2⟩
   have h' := (runOp_ro_cd d op hop).st h
   rw [h'.2]
+
+/-- a successful unlink removes the name from the union (from any state with a valid cache) -/
+theorem unlink_refines_plain_fs (s : St) (hc : Consistent s) (p : List Name) (r : Reply) (s' : St)
+    (h : runOp (.unlink p) s = .ok r s') : merge s'.disk p.reverse = .none ∧ Consistent s' := by
+  have h1 := (runOp_unlink_gone p s hc).1 r s' h
+  refine ⟨?_, h1.1⟩
+  rw [merge_eq_specStat s'.disk h1.1.roots, h1.2]
+  rfl
 
 /-! non-vacuity of the hypotheses: the example disk is well-formed -/
 example : exDisk.RootsOK := by
